@@ -166,7 +166,7 @@ def r1(ctx):
                     ok = norm(g.elt) == f"{gv}[0]" and oriented(g.generators[0].iter) and not g.generators[0].ifs
                 ctx.check(ok, "C02.R1", inst, where, cons,
                           f"label `{norm(key)[:100]}` does not join the names (p[0]) of the same loop tuple in factor order")
-    ctx.floor("C02.R1", n_stores, 5, "column stores")
+    ctx.floor("C02.R1", n_stores, 3, "column stores")
 
 
 def r2(ctx):
@@ -187,6 +187,16 @@ def r2(ctx):
         a = kwarg(c, "scale")
         ctx.check(a is not None and norm(a) == "scoped_term.scale", "C02.R2", "the builder passes the scoped term's scale", b.module.line(c),
                   ctx.construct(b, text=f"{GCT}(scale=)"), f"scale argument is `{norm(a) if a is not None else 'missing (defaults to 1)'}`")
+    # a recorded (rehydrated) scoped term keeps its scale: the replay path multiplies by the same scale as the first build
+    rh = P.method("formulaic.materializers.types.scoped_term.ScopedTerm", "rehydrate")
+    rr = returns_of(rh.node)
+    okr = bool(rr) and isinstance(rr[0].value, ast.Call) and kwarg(rr[0].value, "scale") is not None and norm(kwarg(rr[0].value, "scale")) == "self.scale"
+    ctx.check(okr, "C02.R2", "a rehydrated scoped term keeps the recorded scale", rh.where, ctx.construct(rh, text="rehydrate scale"),
+              "ScopedTerm.rehydrate must pass scale=self.scale: otherwise every matrix rebuilt from a spec silently loses the literal scaling")
+    cp = P.method("formulaic.materializers.types.scoped_term.ScopedTerm", "copy")
+    rr = returns_of(cp.node)
+    okc = bool(rr) and isinstance(rr[0].value, ast.Call) and kwarg(rr[0].value, "scale") is not None and norm(kwarg(rr[0].value, "scale")) == "self.scale"
+    ctx.check(okc, "C02.R2", "the recorded copy of a scoped term keeps the scale", cp.where, ctx.construct(cp, text="copy scale"), "ScopedTerm.copy must pass scale=self.scale")
     # intercept
     ints = [st for st in walk_no_nested(b.node) if isinstance(st, ast.Assign) and isinstance(st.targets[0], ast.Subscript)
             and is_const(st.targets[0].slice, "Intercept")]
@@ -432,9 +442,27 @@ def r5(ctx):
     ct = [c for c in ast.walk(s.node) if isinstance(c, ast.Call) and dotted(c.func) == "ScopedTerm"]
     for c in ct:
         a = kwarg(c, "scale")
-        ctx.check(a is not None and norm(a) in ("existing_term.scale * scoped_term.scale", "scoped_term.scale * existing_term.scale"), "C02.R5",
-                  "a recombined scoped term keeps the scale", s.module.line(c), ctx.construct(s, text="merge scale"),
-                  f"scale of the merged term is `{norm(a) if a is not None else 'dropped'}`")
+        # every scoped term spanned by ONE term already carries that term's scale (degree 1 in the scale); a merge of two of
+        # them must again have degree 1: one operand's scale, not a product (degree 2) and not a constant (degree 0)
+        deg = _scale_degree(a) if a is not None else 0
+        ctx.check(deg == 1, "C02.R5", "a recombined scoped term carries the term's scale exactly once", s.module.line(c), ctx.construct(s, text="merge scale"),
+                  f"scale of the merged term is `{norm(a) if a is not None else 'dropped (defaults to 1)'}` — degree {deg} in the term's literal scale: "
+                  f"{'each merge multiplies the scale again (`0 + 2:a:b` gives 16, not 2)' if deg and deg > 1 else 'the literal scaling is lost'}")
+
+
+def _scale_degree(e: ast.AST):
+    """Degree of an expression in `<scoped term>.scale` (None if not a monomial in it)."""
+    if isinstance(e, ast.Attribute) and e.attr == "scale":
+        return 1
+    if isinstance(e, ast.Constant) and isinstance(e.value, (int, float)):
+        return 0
+    if isinstance(e, ast.BinOp) and isinstance(e.op, ast.Mult):
+        l, r = _scale_degree(e.left), _scale_degree(e.right)
+        return None if l is None or r is None else l + r
+    if isinstance(e, ast.BinOp) and isinstance(e.op, ast.Div):
+        l, r = _scale_degree(e.left), _scale_degree(e.right)
+        return None if l is None or r is None else l - r
+    return None
 
 
 def r6(ctx):
